@@ -196,14 +196,14 @@ Lemma vtable_clear_flag : forall d e, vtable (clear_flag d e) = vtable d.  Proof
 Lemma vtable_legalize_edge : forall pts fuel d e fully d' b, legalize_edge pts fuel d e fully = Some (d', b) -> vtable d' = vtable d.
 Proof. intros pts fuel d e fully d' b H. unfold legalize_edge in H. exact (proj1 (Keep_legalize _ _ _ _ _ _ _ _ H)). Qed.
 
-Lemma vtable_legalize_fold : forall pts fuel es d d',
+Lemma vtable_legalize_fold : forall pts fuel fully es d d',
   fold_left (fun acc e => match acc with
-                          | Some d0 => option_map fst (legalize_edge pts fuel d0 e false)
+                          | Some d0 => option_map fst (legalize_edge pts fuel d0 e fully)
                           | None => None end) es (Some d) = Some d' -> vtable d' = vtable d.
 Proof.
-  intros pts fuel es. induction es as [|e t IH]; intros d d' H; cbn [fold_left] in H.
+  intros pts fuel fully es. induction es as [|e t IH]; intros d d' H; cbn [fold_left] in H.
   - inversion H; subst. reflexivity.
-  - destruct (legalize_edge pts fuel d e false) as [[d1 b]|] eqn:L; cbn [option_map fst] in H.
+  - destruct (legalize_edge pts fuel d e fully) as [[d1 b]|] eqn:L; cbn [option_map fst] in H.
     + rewrite (IH _ _ H). eapply vtable_legalize_edge; exact L.
     + exfalso. clear -H. induction t as [|x t IHt]; cbn [fold_left] in H; [discriminate|auto].
 Qed.
@@ -222,6 +222,24 @@ Proof.
   - inversion H; subst. reflexivity.
   - destruct (legalize_vertex pts fuel d v) as [d1|] eqn:L.
     + rewrite (IH _ _ H). eapply vtable_legalize_vertex; exact L.
+    + exfalso. clear -H. induction t as [|x t IHt]; cbn [fold_left] in H; [discriminate|auto].
+Qed.
+
+(* the full legalization of the edges that start at the split vertices (end of resolve_conflict_groups) *)
+Lemma vtable_legalize_out_edges : forall fuel pts d v d', legalize_out_edges fuel pts d v = Some d' -> vtable d' = vtable d.
+Proof.
+  intros fuel pts d v d' H. unfold legalize_out_edges in H.
+  destruct (v_out_edge d v) as [a|]; [|inversion H; subst; reflexivity].
+  destruct (circ_iter (Insert.d_ccw d) (num_directed_edges d) a a) as [outs|]; [|discriminate].
+  eapply vtable_legalize_fold; exact H.
+Qed.
+
+Lemma vtable_legalize_out_edges_all : forall fuel pts vs d d', legalize_out_edges_all fuel pts d vs = Some d' -> vtable d' = vtable d.
+Proof.
+  intros fuel pts vs. unfold legalize_out_edges_all. induction vs as [|v t IH]; intros d d' H; cbn [fold_left] in H.
+  - inversion H; subst. reflexivity.
+  - destruct (legalize_out_edges fuel pts d v) as [d1|] eqn:L.
+    + rewrite (IH _ _ H). eapply vtable_legalize_out_edges; exact L.
     + exfalso. clear -H. induction t as [|x t IHt]; cbn [fold_left] in H; [discriminate|auto].
 Qed.
 
@@ -277,7 +295,8 @@ Proof.
   destruct sv as [|s0 st]; [inversion H; subst; reflexivity|].
   destruct (pts_of d2) as [pts|]; [|discriminate].
   destruct (legalize_vertices fuel pts d2 (s0 :: st)) as [d3|] eqn:L; [|discriminate].
-  inversion H; subst. eapply vtable_legalize_vertices; exact L.
+  destruct (legalize_out_edges_all fuel pts d3 (s0 :: st)) as [d4|] eqn:L2; [|discriminate].
+  inversion H; subst. rewrite (vtable_legalize_out_edges_all _ _ _ _ _ L2). eapply vtable_legalize_vertices; exact L.
 Qed.
 
 (* ---- 2c. every outcome, the fallback included ---- *)
@@ -508,14 +527,14 @@ Proof.
     + eapply IH; exact H.
 Qed.
 
-Lemma flags_legalize_fold : forall pts fuel es d d',
+Lemma flags_legalize_fold : forall pts fuel fully es d d',
   fold_left (fun acc e => match acc with
-                          | Some d0 => option_map fst (legalize_edge pts fuel d0 e false)
+                          | Some d0 => option_map fst (legalize_edge pts fuel d0 e fully)
                           | None => None end) es (Some d) = Some d' -> d_flags d' = d_flags d.
 Proof.
-  intros pts fuel es. induction es as [|e t IH]; intros d d' H; cbn [fold_left] in H.
+  intros pts fuel fully es. induction es as [|e t IH]; intros d d' H; cbn [fold_left] in H.
   - inversion H; subst. reflexivity.
-  - destruct (legalize_edge pts fuel d e false) as [[d1 b]|] eqn:L; cbn [option_map fst] in H.
+  - destruct (legalize_edge pts fuel d e fully) as [[d1 b]|] eqn:L; cbn [option_map fst] in H.
     + rewrite (IH _ _ H). unfold legalize_edge in L. eapply flags_legalize; exact L.
     + exfalso. clear -H. induction t as [|x t IHt]; cbn [fold_left] in H; [discriminate|auto].
 Qed.
@@ -537,6 +556,23 @@ Proof.
     + exfalso. clear -H. induction t as [|x t IHt]; cbn [fold_left] in H; [discriminate|auto].
 Qed.
 
+Lemma flags_legalize_out_edges : forall fuel pts d v d', legalize_out_edges fuel pts d v = Some d' -> d_flags d' = d_flags d.
+Proof.
+  intros fuel pts d v d' H. unfold legalize_out_edges in H.
+  destruct (v_out_edge d v) as [a|]; [|inversion H; subst; reflexivity].
+  destruct (circ_iter (Insert.d_ccw d) (num_directed_edges d) a a) as [outs|]; [|discriminate].
+  eapply flags_legalize_fold; exact H.
+Qed.
+
+Lemma flags_legalize_out_edges_all : forall fuel pts vs d d', legalize_out_edges_all fuel pts d vs = Some d' -> d_flags d' = d_flags d.
+Proof.
+  intros fuel pts vs. unfold legalize_out_edges_all. induction vs as [|v t IH]; intros d d' H; cbn [fold_left] in H.
+  - inversion H; subst. reflexivity.
+  - destruct (legalize_out_edges fuel pts d v) as [d1|] eqn:L.
+    + rewrite (IH _ _ H). eapply flags_legalize_out_edges; exact L.
+    + exfalso. clear -H. induction t as [|x t IHt]; cbn [fold_left] in H; [discriminate|auto].
+Qed.
+
 (* fast path *)
 Lemma fast_path_returned_flagged : forall payload fuel d final groups d' nc edges,
   resolve_conflict_groups_split payload fuel d final groups = Some (d', nc, edges) ->
@@ -553,7 +589,9 @@ Proof.
   - inversion H; subst. apply Fl2; [reflexivity|exact He|exact Lt].
   - destruct (pts_of d2) as [pts|]; [|discriminate].
     destruct (legalize_vertices fuel pts d2 (s0 :: st)) as [d3|] eqn:L; [|discriminate].
-    inversion H; subst. apply Fl2; [eapply flags_legalize_vertices; exact L|exact He|exact Lt].
+    destruct (legalize_out_edges_all fuel pts d3 (s0 :: st)) as [d4|] eqn:L2; [|discriminate].
+    inversion H; subst.
+    apply Fl2; [rewrite (flags_legalize_out_edges_all _ _ _ _ _ L2); eapply flags_legalize_vertices; exact L|exact He|exact Lt].
 Qed.
 
 (* fallback, phase 2 *)
